@@ -306,10 +306,50 @@ func parseDescLine(line, subjectKey string) (ditem, bool) {
 			}
 		}
 		if !found {
+			// elements printed without quotes: a signature number (`0`), `parameter N` (a decimal parameter name), `block`
+			word := rest
+			if i := strings.IndexByte(rest, ' '); i >= 0 {
+				word = rest[:i]
+			}
+			switch {
+			case isDecimal(word):
+				d.path = append(d.path, pelem{"g", word})
+				rest = rest[len(word):]
+				found = true
+			case word == "parameter":
+				tail := rest[len("parameter "):]
+				num := tail
+				if i := strings.IndexByte(tail, ' '); i >= 0 {
+					num = tail[:i]
+				}
+				if isDecimal(num) {
+					d.path = append(d.path, pelem{"p", num})
+					rest = tail[len(num):]
+					found = true
+				}
+			case word == "block":
+				d.path = append(d.path, pelem{"b", "block"})
+				rest = rest[len(word):]
+				found = true
+			}
+		}
+		if !found {
 			break
 		}
 	}
 	return d, parseMessage(&d, rest)
+}
+
+func isDecimal(s string) bool {
+	if s == "" {
+		return false
+	}
+	for _, c := range s {
+		if c < '0' || c > '9' {
+			return false
+		}
+	}
+	return true
 }
 
 func parseDescription(text, subjectKey string) ([]ditem, string) {
